@@ -832,7 +832,12 @@ static void add_to_mapping (mapping_t * m1, mapping_t * m2, int free_flag) {
                 {
                   if (msameval (sv, elt1->values))
                     {
-                      assign_svalue (elt1->values + 1, sv + 1);
+                      /* m1 and m2 can be the same mapping (m += m), and then this is one
+                       * node: take the new reference before the old one is released */
+                      svalue_t old = elt1->values[1];
+
+                      assign_svalue_no_free (elt1->values + 1, sv + 1);
+                      free_svalue (&old, "add_to_mapping");
                       break;
                     }
                 }
